@@ -25,6 +25,9 @@ RULE = ("1-3 runs per case under the virtual clock with a cleanup strategy KeepL
         "model removed or compressed at least one file; distinct = distinct case text")
 
 
+VIA_LOGGER = 0.25   # share of the file-writer histories that is run once more through Logger / LoggerHandle
+
+
 def corpus():
     out = []
     for naming in g.NAMINGS[:4]:
